@@ -60,9 +60,6 @@ Definition mut_is_assign (m : mutT) : bool := match m with MNoAssignCheck => tru
 Definition mut_is_nilptr (m : mutT) : bool := match m with MNoNilPtrCheck => true | _ => false end.
 Definition mut_is_reslen (m : mutT) : bool := match m with MNoResLenCheck => true | _ => false end.
 
-(* where the content of a reflect.Value came from *)
-Inductive src := SVal (id : Z) | SZero.
-
 Fixpoint forallb2 {A B : Type} (f : A -> B -> bool) (l1 : list A) (l2 : list B) : bool :=
   match l1, l2 with
   | [], [] => true
@@ -81,6 +78,10 @@ Variable ty : Type.
 Variable kind : ty -> kindT.
 Variable assignable : ty -> ty -> bool.
 Variable elem : ty -> ty.
+
+(* the content of a reflect.Value: the tagged value it was made from, or the zero value of type t (kept through
+   conversions: the zero *int converted to interface{} is a non-nil interface holding a nil *int) *)
+Inductive src := SVal (id : Z) | SZeroOf (t : ty).
 
 (* an interface{} value handed to an option: its dynamic type (None = untyped nil), whether it is a nil pointer /
    map / ... of that type, and a unique tag *)
@@ -153,7 +154,7 @@ Definition call_args (sg : sig) (args : list val) : res athunk :=
 (* the closure: results[i] = reflect.New(in).Elem(); results[i].Set(reflect.ValueOf(args[i])) *)
 Definition set_arg (t : ty) (a : val) : res rval :=
   match vty a with
-  | None => if fixed then Ok (mkR t SZero) else Panic PSetZeroValue
+  | None => if fixed then Ok (mkR t (SZeroOf t)) else Panic PSetZeroValue
   | Some at_ => if assignable at_ t then Ok (mkR t (SVal (vid a))) else Panic PSetNotAssignable
   end.
 
@@ -346,7 +347,7 @@ Definition param_types (sg : sig) (n : nat) : list ty :=
 
 (* an argument as the function receives it: of the parameter's type; an untyped nil is the zero value of that type *)
 Definition pass (t : ty) (a : val) : rval :=
-  mkR t (match vty a with None => SZero | Some _ => SVal (vid a) end).
+  mkR t (match vty a with None => SZeroOf t | Some _ => SVal (vid a) end).
 
 Definition arg_ok (t : ty) (a : val) : bool :=
   match vty a with None => nilable (kind t) | Some at_ => assignable at_ t end.
@@ -418,6 +419,7 @@ Definition expected_stores (opts : list copt) (outs : list rval) : list store :=
 
 End Callable.
 
+Arguments SVal {ty}. Arguments SZeroOf {ty}.
 Arguments mkVal {ty}. Arguments vty {ty}. Arguments vnil {ty}. Arguments vid {ty}.
 Arguments mkR {ty}. Arguments rty {ty}. Arguments rsrc {ty}.
 Arguments mkSig {ty}. Arguments s_fixed {ty}. Arguments s_var {ty}. Arguments s_out {ty}.
